@@ -66,11 +66,24 @@ POOL = [
     "DateDataParser(languages=['tl']).get_date_data('Lunes 02/03/2021').date_obj",
     "dateparser.parse('15 mars', languages=['fr'], settings={'REQUIRE_PARTS': ['year']})",
     "dateparser.parse('10 jan 11', languages=['ja'], settings={'DEFAULT_LANGUAGES': ['sv', 'en']})",
+    # 41..
+    "dateparser.parse('03 04 05 2015', languages=['en'])",
+    "dateparser.parse('March 2015', languages=['en'], settings={'RELATIVE_BASE': B})",
+    "dateparser.parse('2015', languages=['en'], settings={'RELATIVE_BASE': B})",
+    "dateparser.parse('12 foo March 2020', languages=['en'], settings={'NORMALIZE': False, 'SKIP_TOKENS': ['foo']})",
+    "dateparser.parse('12 foo March 2020', languages=['en'], settings={'NORMALIZE': False, 'RELATIVE_BASE': B})",
+    "dateparser.parse('10:30', settings={'TIMEZONE': 'Europe/Berlin', 'RELATIVE_BASE': datetime.datetime(2015, 1, 15, 9, 45), 'PREFER_DATES_FROM': 'future'})",
+    "dateparser.parse('10:30', settings={'TIMEZONE': 'Europe/Berlin', 'RELATIVE_BASE': datetime.datetime(2015, 7, 15, 9, 30), 'PREFER_DATES_FROM': 'future'})",
+    "search_dates('Am 12. März 2020 hat es geregnet', languages=['fr', 'de'], settings={'RELATIVE_BASE': B})",
+    "search_dates('Il a plu le 12 mars 2020 à Paris', languages=['de', 'fr'], settings={'RELATIVE_BASE': B})",
+    "dateparser.parse('17 février 2013', languages=['fr'], settings={'NORMALIZE': False})",
+    "dateparser.parse('17 février 2013', languages=['fr'])",
 ]
 
 # explicit (predecessor, call) pairs: a failing attempt under a non-MDY locale, then order-sensitive calls
 PAIRS = [(32, 34), (32, 35), (33, 34), (33, 35), (32, 38), (33, 38), (37, 38), (6, 34), (6, 38),
-         (36, 2), (36, 3), (32, 0), (33, 0)]
+         (36, 2), (36, 3), (32, 0), (33, 0), (41, 42), (41, 43), (44, 45), (45, 44), (46, 47), (47, 46),
+         (48, 49), (49, 48), (50, 51), (51, 50), (21, 25), (25, 48)]
 
 # parser objects that are kept and reused: (constructor, probe string).  The probe's answer must be
 # the same before and after any other API call, and equal to a fresh process's answer.
